@@ -212,13 +212,14 @@ def check(ctx):
     funcs_with_flow = set()
     sites = 0
     seen_funcs = set()
-    for ci, fi, s in strategies:
-        if fi.id in seen_funcs:
-            continue
+    from ..model import strategy_variants
+    for ci, fi, s, parked in strategy_variants(repo, 'unpack'):
+        if fi.id not in seen_funcs:
+            ctx.unit('unpack_strategies')
+            sites += len(raw_slices(fi.node))
         seen_funcs.add(fi.id)
-        ctx.unit('unpack_strategies')
-        sites += len(raw_slices(fi.node))
         w = repo.walker(inline_depth=ctx.depth, max_paths=ctx.max_paths)
+        w.const_heap = parked          # a resolver / locator chosen by _compile is followed
         paths = w.paths(fi.node, cls=ci)
         ctx.unit('paths', len(paths))
         for p in paths:
